@@ -99,8 +99,10 @@ def rememberAuthenticate : H PUnit := do
         match ← backend with
         | some _ => fail "failed to save remember me token"
         | none =>
+          -- (after the `fix:`) the rest of this request sees the half-auth mark as well
           modify fun c => { c with store := { c.store with tokens := c.store.tokens ++ [(pid, raw')] },
-                                   ctxPid := some pid }
+                                   ctxPid := some pid,
+                                   sess := c.sess.put .halfauth (lit "true") }
           putS .uid pid
           putS .halfauth (lit "true")
           delRm
